@@ -2,184 +2,13 @@
     C11 ([Cholesky.chol_rows]), and the correctness of the Cholesky route in exact arithmetic. *)
 From Coq Require Import List Arith Bool Lia Reals Lra.
 From Compute Require Import Base.Ops Base.ListMat Model.Reduce Model.MatMul Model.Subst Model.Cholesky Model.Solve
-  Spec.Factor Spec.Solve Proofs.C05 Proofs.LinAlgBase Proofs.C11_Subst Proofs.C11_Chol Proofs.C01_Layout.
+  Spec.Factor Spec.Solve Proofs.C05 Proofs.LinAlgBase Proofs.C11_Subst Proofs.C01_Layout.
+From Compute Require Export Proofs.C11_Pred Proofs.C11_Chol.
 Import ListNotations.
 
-(** ** any carrier: a successful [try_cholesky] sweep returns exactly the factor of the plain sweep,
-    and every diagonal entry is the square root of a pivot that passed the [d > 0] test *)
-Section TryChol.
-  Context {T : Type} (O : Ops T).
-  Local Notation z := (zero O).
-
-  Lemma fold_append_length {X} (g : list T -> X -> T) js r0 :
-    length (fold_left (fun r j => r ++ [g r j]) js r0) = length r0 + length js.
-  Proof.
-    revert r0; induction js as [|j js IH]; intros r0; cbn [fold_left length]; [lia|].
-    rewrite IH, app_length. cbn [length]. lia.
-  Qed.
-
-  Lemma try_step_prefix A L n i js r0 :
-    (forall j, In j js -> j <> i) ->
-    fold_left (try_chol_step O A L n i) js (Some r0) =
-    Some (fold_left (fun r j => r ++ [chol_entry O false A L n i r j]) js r0).
-  Proof.
-    revert r0; induction js as [|j js IH]; intros r0 H; cbn [fold_left]; auto.
-    unfold try_chol_step at 2. cbn [bind].
-    destruct (Nat.eqb_spec j i) as [E|E]; [exfalso; apply (H j); [left; auto|auto]|].
-    apply IH. intros j' Hj'. apply H. right; auto.
-  Qed.
-
-  Lemma chol_entry_diag A L n i r :
-    chol_entry O false A L n i r i = sqrt O (chol_pivot O A i r).
-  Proof. unfold chol_entry, chol_pivot. rewrite Nat.eqb_refl. reflexivity. Qed.
-
-  Lemma try_chol_row_some A L n i row :
-    try_chol_row O A L n i = Some row ->
-    row = chol_row O false A L n i /\
-    exists d, ltb O z d = true /\ nth i row z = sqrt O d.
-  Proof.
-    unfold try_chol_row, chol_row. rewrite seq_S, !fold_left_app. cbn [Nat.add fold_left].
-    rewrite try_step_prefix by (intros j Hj; apply in_seq in Hj; lia).
-    set (r := fold_left (fun r j => r ++ [chol_entry O false A L n i r j]) (seq 0 i) []).
-    assert (Hr : length r = i) by (unfold r; rewrite fold_append_length, seq_length; reflexivity).
-    unfold try_chol_step. cbn [bind]. rewrite Nat.eqb_refl.
-    destruct (ltb O z (chol_pivot O A i r)) eqn:Hd; cbn [bind]; [|discriminate].
-    intros [= <-]. rewrite chol_entry_diag. split; [reflexivity|].
-    exists (chol_pivot O A i r). split; [exact Hd|].
-    unfold pad. rewrite app_nth1 by (rewrite app_length; cbn [length]; lia).
-    rewrite app_nth2 by lia. rewrite Hr, Nat.sub_diag. reflexivity.
-  Qed.
-
-  Lemma try_chol_row_none A L n i :
-    try_chol_row O A L n i = None ->
-    ltb O z (chol_pivot O A i (fold_left (fun r j => r ++ [chol_entry O false A L n i r j]) (seq 0 i) [])) = false.
-  Proof.
-    unfold try_chol_row. rewrite seq_S, !fold_left_app. cbn [Nat.add fold_left].
-    rewrite try_step_prefix by (intros j Hj; apply in_seq in Hj; lia).
-    unfold try_chol_step. cbn [bind]. rewrite Nat.eqb_refl.
-    destruct (ltb O z _); cbn [bind]; [discriminate|reflexivity].
-  Qed.
-
-  Lemma try_chol_rows_prefix A n k L :
-    fold_left (try_chol_rows_step O A n) (seq 0 k) (Some []) = Some L ->
-    L = fold_left (fun L i => L ++ [chol_row O false A L n i]) (seq 0 k) [] /\
-    length L = k /\
-    forall i, i < k -> exists d, ltb O z d = true /\ ent z L i i = sqrt O d.
-  Proof.
-    revert L; induction k as [|k IH]; intros L.
-    - cbn [seq fold_left]. intros [= <-]. repeat split; auto. intros; lia.
-    - rewrite seq_S, !fold_left_app. cbn [Nat.add fold_left].
-      destruct (fold_left (try_chol_rows_step O A n) (seq 0 k) (Some [])) as [Lk|] eqn:Ek;
-        unfold try_chol_rows_step at 1; cbn [bind]; [|discriminate].
-      destruct (IH Lk eq_refl) as (HLk & Hlen & Hpiv).
-      destruct (try_chol_row O A Lk n k) as [row|] eqn:Erow; cbn [bind]; [|discriminate].
-      intros [= <-]. destruct (try_chol_row_some _ _ _ _ _ Erow) as (Hrow & d & Hd & Hnth).
-      split; [|split].
-      + rewrite <- HLk, <- Hrow. reflexivity.
-      + rewrite app_length. cbn [length]. lia.
-      + intros i Hi. unfold ent. destruct (Nat.eq_dec i k) as [->|Hne].
-        * exists d. split; auto. rewrite app_nth2 by lia. rewrite Hlen, Nat.sub_diag. exact Hnth.
-        * rewrite app_nth1 by lia. apply Hpiv. lia.
-  Qed.
-
-  Lemma try_chol_rows_some A n L :
-    try_chol_rows O A n = Some L ->
-    L = chol_rows O false A n /\
-    forall i, i < n -> exists d, ltb O z d = true /\ ent z L i i = sqrt O d.
-  Proof.
-    intros H. destruct (try_chol_rows_prefix A n n L H) as (H1 & _ & H3). split; auto.
-  Qed.
-
-  (** [try_cholesky] panics exactly when [is_symmetric] panics or answers false *)
-  Lemma try_cholesky_shape a :
-    match is_square (length a) with
-    | None => try_cholesky O a = None
-    | Some n => if is_symmetric_rel_rows O (unflatten a n n) n
-                then exists r, try_cholesky O a = Some r
-                else try_cholesky O a = None
-    end.
-  Proof.
-    unfold try_cholesky. destruct (is_square (length a)) as [n|]; cbn [bind]; auto.
-    destruct (is_symmetric_rel_rows O (unflatten a n n) n); cbn [guard bind]; eauto.
-  Qed.
-
-  (** the repaired [cholesky] either panics or returns the factor [try_cholesky] found *)
-  Lemma cholesky_checked_spec a l :
-    cholesky_checked O a = Some l <-> try_cholesky O a = Some (Some l).
-  Proof.
-    unfold cholesky_checked. destruct (try_cholesky O a) as [[l'|]|]; cbn [bind]; split; intros H;
-      try discriminate; congruence.
-  Qed.
-End TryChol.
-
+(** (the lemmas relating the fallible sweep [try_cholesky] to the plain sweep and its reconstruction
+    theorems are in Proofs/C11_Chol.v, shared with property C11) *)
 Local Open Scope R_scope.
-
-(** ** exact arithmetic *)
-Lemma Rltb_sqrt_pos d : ltb RO (zero RO) d = true -> 0 < R_sqrt.sqrt d.
-Proof. cbn [ltb RO zero]. intros H. apply Rltb_true in H. apply sqrt_lt_R0. exact H. Qed.
-
-(** a successful fallible sweep: the factor of C11's sweep, with positive diagonal *)
-Lemma try_cholesky_factor a l n :
-  try_cholesky RO a = Some (Some l) -> (n * n)%nat = length a ->
-  l = flatten (chol_rows RO false (unflatten a n n) n) /\
-  length l = (n * n)%nat /\
-  (forall i, (i < n)%nat -> 0 < getm l n i i).
-Proof.
-  intros H Hn. unfold try_cholesky in H. rewrite <- Hn, is_square_sq in H. cbn [bind] in H.
-  destruct (is_symmetric_rel_rows RO (unflatten a n n) n); cbn [guard bind] in H; [|discriminate].
-  destruct (try_chol_rows RO (unflatten a n n) n) as [L|] eqn:EL; cbn [option_map] in H; [|discriminate].
-  inversion H; subst l; clear H.
-  destruct (try_chol_rows_some RO _ _ _ EL) as [HL Hpiv].
-  destruct (chol_rows_spec false (unflatten a n n) n) as [Hw _].
-  rewrite <- HL in Hw.
-  split; [rewrite HL; reflexivity|]. split; [apply (wf_flatten_length _ n Hw)|].
-  intros i Hi. unfold getm. rewrite (nth_flatten 0 L n i i Hw Hi Hi).
-  destruct (Hpiv i Hi) as (d & Hd & He). cbn [zero RO] in He. rewrite He. apply Rltb_sqrt_pos. exact Hd.
-Qed.
-
-(** ... hence, for an exactly symmetric matrix, L.L^T = A with L lower triangular (C11 [chol_reconstructs]) *)
-Lemma try_cholesky_reconstructs a l n :
-  try_cholesky RO a = Some (Some l) -> (n * n)%nat = length a -> symmetric a n ->
-  length l = (n * n)%nat /\ lower_triangular l n /\
-  (forall i, (i < n)%nat -> 0 < getm l n i i) /\
-  (forall i j, (i < n)%nat -> (j < n)%nat ->
-     rsum (fun k => getm l n i k * getm l n j k) n = getm a n i j).
-Proof.
-  intros H Hn Hsym.
-  destruct (try_cholesky_factor a l n H Hn) as (Hl & Hlen & Hpos).
-  assert (Hc : cholesky RO a = Some l).
-  { unfold cholesky. rewrite <- Hn, is_square_sq. cbn [bind].
-    rewrite is_symmetric_rows_exact.
-    - cbn [guard bind]. rewrite Hl. reflexivity.
-    - intros i j Hi Hj. rewrite !ent_unflatten by auto. apply (Hsym i j); auto. }
-  destruct (chol_reconstructs a l n Hc Hn Hpos) as (_ & Hlow & _ & Hfull).
-  repeat split; auto.
-Qed.
-
-(** the lower triangle alone determines the factor: without any symmetry assumption, L.L^T reproduces
-    the lower triangle of A (so the Cholesky route solves the system of the matrix mirrored from it) *)
-Lemma try_cholesky_reconstructs_lower a l n :
-  try_cholesky RO a = Some (Some l) -> (n * n)%nat = length a ->
-  length l = (n * n)%nat /\ lower_triangular l n /\
-  (forall i, (i < n)%nat -> 0 < getm l n i i) /\
-  (forall i j, (i < n)%nat -> (j <= i)%nat ->
-     rsum (fun k => getm l n i k * getm l n j k) n = getm a n i j).
-Proof.
-  intros H Hn.
-  destruct (try_cholesky_factor a l n H Hn) as (Hl & Hlen & Hpos).
-  destruct (chol_rows_spec false (unflatten a n n) n) as [Hw Hrec].
-  set (L := chol_rows RO false (unflatten a n n) n) in *.
-  assert (Hg : forall i j, (i < n)%nat -> (j < n)%nat -> getm l n i j = ent 0 L i j)
-    by (intros; subst l; apply nth_flatten; auto).
-  assert (Hpos' : forall i, (i < n)%nat -> 0 < ent 0 L i i) by (intros i Hi; rewrite <- Hg by auto; auto).
-  repeat split; auto.
-  - intros i j Hi Hj Hij. rewrite Hg by auto. destruct (Hrec i Hi) as [Hz _]. apply Hz; auto.
-  - intros i j Hi Hj.
-    rewrite (rsum_trunc _ (S j) n); [|lia|].
-    + rewrite (rsum_ext _ (fun k => ent 0 L i k * ent 0 L j k)) by (intros k Hk; rewrite !Hg by lia; reflexivity).
-      rewrite (chol_rec_reconstructs _ L n Hrec Hpos' i j Hi Hj). apply ent_unflatten; lia.
-    + intros k Hk. rewrite (Hg j k) by lia. destruct (Hrec j ltac:(lia)) as [Hz _]. rewrite Hz by lia. lra.
-Qed.
 
 (** ** [cholesky_solve] solves (L.L^T).x = b *)
 Lemma cholesky_solve_correct (a l b : list R) n :
